@@ -76,6 +76,11 @@ func NewEncryptedISO(f afero.File, data1 []byte, clearRegions bool) (*EncryptedI
 		return nil, fmt.Errorf("read unencrypted regions count failed: %w", err)
 	}
 
+	// regions map is a part of the first sector
+	if maxCount := (sectorSize - sizeBytes(binary.Size(hdr))) / sizeBytes(binary.Size(unencryptedRegion{})); sizeBytes(hdr.Count) > maxCount {
+		return nil, fmt.Errorf("unexpected unencrypted regions count (%d)", hdr.Count)
+	}
+
 	unencryptedRegions := make([]unencryptedRegion, hdr.Count)
 	err = binary.Read(f, binary.BigEndian, unencryptedRegions)
 	if err != nil {
